@@ -141,6 +141,10 @@ def build(shape):
     if shape == 'S10':  # an environment that turns out to be EMPTY (dropped by where) next to a normal one, behind one chunk
         envs = (_syn(4, 1) + _syn(3, 2)).chunk().where(n_interactions=(4, None))
         return ('cross', envs, [RandomLearner(seed=3)], [SummaryEvaluator(), SequentialCB()])
+    if shape.startswith('P:'):
+        envs, kind = PIPES[shape[2:]]()
+        lrns = [RandomLearner(seed=3), PmfLearner()] if kind == 'igl' else [BanditEpsilonLearner(0.3, seed=6), PmfLearner()]
+        return ('cross', envs, lrns, _pipe_evaluator(kind))
     raise ValueError(shape)
 
 
@@ -173,3 +177,57 @@ def _c(v):
     if isinstance(v, dict): return {str(k): _c(x) for k, x in sorted(v.items(), key=lambda kv: str(kv[0]))}
     if v is None or isinstance(v, (int, str, bool)): return v
     return repr(v)
+
+
+# ---------------------------------------------------------------- the pipeline alphabet (C01 'P:<name>' shapes)
+# one environment filter / source each, built with NON-default parameter values (what a worker receives is a pickled copy of the
+# pipeline: every parameter has to survive the trip), evaluated by an evaluator that can read its output
+def _syn0(n=6, seed=1): return Environments.from_linear_synthetic(n, n_actions=3, n_context_features=2, n_action_features=0, seed=seed)      # hashable (one-hot tuple) actions
+
+
+def _logged(n=6, seed=3): return _syn(n, seed).logged(RandomLearner(seed=5), seed=2.5)
+
+
+PIPES = {
+    'noise-seeds':    lambda: (_syn(5, 1).noise(context=(0, .5), reward=('i', 0, 1), seed=[2, 3]), 'cb'),
+    'noise-action':   lambda: (_syn(5, 1).noise(action=('g', 0, .25), seed=7), 'cb'),
+    'shuffle-seeds':  lambda: (_syn(5, 1).shuffle([4, 9]), 'cb'),
+    'reservoir':      lambda: (_syn(8, 1).reservoir(4, seeds=[3, 5]), 'cb'),
+    'riffle':         lambda: (_syn(6, 1).riffle(2, seed=4), 'cb'),
+    'scale-mean-std': lambda: (_syn(6, 1).scale('mean', 'std', using=3), 'cb'),
+    'scale-num':      lambda: (_syn(6, 1).scale(0.5, 'maxabs'), 'cb'),
+    'impute':         lambda: (_syn(6, 1).impute('median', indicator=False, using=4), 'cb'),
+    'sort':           lambda: (_syn(6, 1).sort(1), 'cb'),
+    'slice':          lambda: (_syn(8, 1).slice(1, 7, 2), 'cb'),
+    'take-strict':    lambda: (_syn(6, 1).take(4, strict=True), 'cb'),
+    'cycle':          lambda: (_syn0(6, 1).cycle(2), 'cb'),
+    'params':         lambda: (_syn(4, 1).params({'tag': 'z', 'n': 2}), 'cb'),
+    'sparse':         lambda: (_syn(5, 1).sparse(context=True, action=True), 'cb'),
+    'dense-hash':     lambda: (_syn(5, 1).sparse(context=True, action=True).dense(5, 'hashing', context=True, action=True), 'cb'),
+    'dense-lookup':   lambda: (_syn(5, 1).sparse().dense(6, 'lookup'), 'cb'),
+    'dense-lookup-2': lambda: ((_syn(5, 1) + _syn(4, 2)).sparse(action=True).dense(12, 'lookup', action=True), 'cb'),      # ONE Densify object shared by two environments
+    'flatten':        lambda: (_syn(5, 1).flatten(), 'cb'),
+    'materialize':    lambda: (_syn(5, 1).shuffle(seed=3).materialize(), 'cb'),
+    'batch':          lambda: (_syn(6, 1).batch(2), 'cb'),
+    'unbatch':        lambda: (_syn(6, 1).batch(3).unbatch(), 'cb'),
+    'where':          lambda: ((_syn(5, 1) + _syn(3, 2)).where(n_interactions=(4, None)), 'cb'),
+    'binary':         lambda: (_syn(5, 1).binary(), 'cb'),
+    'logged-seed':    lambda: (_logged(), 'ips'),
+    'logged-ope':     lambda: (_logged().ope_rewards('IPS'), 'ips'),
+    'logged-reject':  lambda: (_logged(8, 4), 'reject'),
+    'grounded':       lambda: (_syn0(6, 1).binary().grounded(4, 2, 5, 2, seed=3), 'igl'),
+    'neighbors':      lambda: (Environments.from_neighbors_synthetic(6, n_actions=3, n_context_features=2, n_action_features=1, n_neighborhoods=3, seed=4), 'cb'),
+    'kernel':         lambda: (Environments.from_kernel_synthetic(6, n_actions=3, n_context_features=2, n_action_features=1, n_exemplars=2, kernel='exponential', gamma=.5, seed=4), 'cb'),
+    'mlp':            lambda: (Environments.from_mlp_synthetic(6, n_actions=3, n_context_features=2, n_action_features=1, seed=4), 'cb'),
+    'linear-feats':   lambda: (Environments.from_linear_synthetic(6, n_actions=3, n_context_features=2, n_action_features=2, reward_features=['a', 'xa', 'xxa'], seed=6), 'cb'),
+    'cache-chunk':    lambda: (_syn(5, 2).shuffle(seed=8).cache().noise(reward=(0, .1), seed=[5, 6]).chunk(cache=False), 'cb'),
+}
+
+
+def _pipe_evaluator(kind):
+    from coba.evaluators import SequentialIGL
+    if kind == 'cb': return SequentialCB(record=['reward', 'action', 'probability', 'context'])
+    if kind == 'ips': return SequentialCB(learn='off', eval='ips', record=['reward', 'action', 'probability'])
+    if kind == 'reject': return RejectionCB(seed=11)
+    if kind == 'igl': return SequentialIGL(seed=4)
+    raise ValueError(kind)
